@@ -79,7 +79,7 @@ def main():
                     last = [l for l in out.splitlines() if l.startswith(c + " ")]
                     detected[c] = dict(reported=bool(viol), classes=sorted(set(classes))[:8], summary=(last[-1] if last else "")[:200])
             finally:
-                sh(["git", "-C", "/repo", "checkout", "--", "."])
+                sh(["git", "-C", "/repo", "checkout", "--", "."]); sh(["git", "-C", "/repo", "clean", "-fdq"])  # a patch may add files
             meta = dict(
                 id=sid, breaks_property=prop, base_commit=head,
                 what_was_changed=agent.get("summary", ""),
@@ -94,7 +94,7 @@ def main():
             summary.append((sid, "caught by " + ", ".join(c for c, v in detected.items() if v["reported"]) if any(v["reported"] for v in detected.values()) else "MISSED"))
             print(sid, summary[-1][1], "" if ok else "(own check silent)", flush=True)
     finally:
-        sh(["git", "-C", "/repo", "checkout", "--", "."])
+        sh(["git", "-C", "/repo", "checkout", "--", "."]); sh(["git", "-C", "/repo", "clean", "-fdq"])  # a patch may add files
         shutil.rmtree(os.path.join(V, "evidence"), ignore_errors=True)
         shutil.move(save, os.path.join(V, "evidence"))
         sh([os.path.join(V, "bin", "extract")], cwd=V)
